@@ -845,6 +845,12 @@ class Interp:
             key, fk = self.heap_key(k.cls, attr)
             if key is not None:
                 return self.heap_read(base, key, fk, heap)
+            for c_ in self.w.mro(k.cls):
+                view = self.w.classes.get(c_, {}).get('views', {}).get(attr)
+                if view is not None:
+                    # @property returning six.itervalues(self.<field>) (checked syntactically by the family)
+                    fkey, fk = self.heap_key(k.cls, view[0])
+                    return PyObj('mapview', map=self.heap_read(base, fkey, fk, heap), what=view[1])
             c = self.w.find_method(k.cls, attr)
             if c is not None:
                 if c.pure and getattr(c, 'is_property', False):
